@@ -403,6 +403,11 @@ def parse_file_contents(data):
     :returns: A dict of the form ``{'policy_name1': 'policy1',
         'policy_name2': 'policy2,...}``
     """
+    if not data:
+        # Nothing to parse. The file cache hands out an empty dict instead of
+        # text for a policy file that has disappeared; treat that like an
+        # empty file.
+        return {}
     try:
         # NOTE(snikitin): jsonutils.loads() is much faster than
         # yaml.safe_load(). However jsonutils.loads() parses only JSON while
